@@ -97,7 +97,7 @@ def rows_of(q, xs, sel, m, form="set_of"):
 
 
 def run_an(world, kinds, cond, sel, *, form="set_of", how="let", order=None, perm=None, caching=True,
-           register=True, split_top_and=False, quant="an", times=1, take_first=0, consume_in_block=False):
+           register=True, split_top_and=False, quant="an", times=1, take_first=0, consume_in_block=False, keep_first=False):
     """Build a fresh query and evaluate it `times` times.  Returns list of row lists (one per evaluation)."""
     from entity_query_language.cache_data import enable_caching, disable_caching
     m = labels_of(world)
@@ -111,7 +111,10 @@ def run_an(world, kinds, cond, sel, *, form="set_of", how="let", order=None, per
             for _ in range(take_first):
                 if next(it, None) is None:
                     break
-            it.close()
+            if keep_first:
+                kept = it          # suspended and kept alive (never advanced again) while the evaluations below run
+            else:
+                it.close()
         if consume_in_block:    # the results are consumed while the consumer is (still) inside a symbolic block
             from entity_query_language import symbolic_mode
             with symbolic_mode():
